@@ -18,6 +18,7 @@ CACHE = os.path.join(VERIF, ".cache")
 DRIVER_DIR = os.path.join(VERIF, "driver")
 DRIVER_BIN = os.path.join(DRIVER_DIR, "target", "debug", "mirfacts")
 CRATES = ("dropshot", "dropshot_endpoint")
+POOL = 4
 
 
 def repo_root():
@@ -92,52 +93,78 @@ def ensure_facts(features=""):
     want = [os.path.join(out, c + ".json") for c in CRATES]
     if all(os.path.exists(p) for p in want):
         return out, info
-    lock = open(os.path.join(CACHE, "lock"), "w")
-    fcntl.flock(lock, fcntl.LOCK_EX)
+    # a small pool of cargo target directories so that concurrent callers (self-test workers,
+    # several checks at once) do not serialise on one build lock; each has its own flock
+    lock = None
+    slot = 0
+    for slot in range(POOL):
+        cand = open(os.path.join(CACHE, "lock%d" % slot), "w")
+        try:
+            fcntl.flock(cand, fcntl.LOCK_EX | fcntl.LOCK_NB)
+            lock = cand
+            break
+        except OSError:
+            cand.close()
+    if lock is None:
+        slot = os.getpid() % POOL
+        lock = open(os.path.join(CACHE, "lock%d" % slot), "w")
+        fcntl.flock(lock, fcntl.LOCK_EX)
     try:
         if all(os.path.exists(p) for p in want):
             return out, info
-        if not driver_fresh():
-            build_driver()
+        dl = open(os.path.join(CACHE, "driver.lock"), "w")
+        fcntl.flock(dl, fcntl.LOCK_EX)
+        try:
+            if not driver_fresh():
+                build_driver()
+        finally:
+            fcntl.flock(dl, fcntl.LOCK_UN)
+            dl.close()
         t0 = time.time()
-        target = os.path.join(CACHE, "target" + ("-" + features if features else ""))
-        # cargo's freshness cache would silently skip the wrapper: forget the members
-        for d in glob.glob(os.path.join(target, "debug", ".fingerprint", "dropshot-*")) + \
-                glob.glob(os.path.join(target, "debug", ".fingerprint", "dropshot_endpoint-*")):
-            shutil.rmtree(d, ignore_errors=True)
+        target = os.path.join(CACHE, "target" + ("" if slot == 0 else "-w%d" % slot) + ("-" + features if features else ""))
         tmp = os.path.join(CACHE, "facts", tag + ".tmp%d" % os.getpid())
-        shutil.rmtree(tmp, ignore_errors=True)
-        os.makedirs(tmp)
-        env = dict(os.environ)
-        env.update({
-            "CARGO_NET_OFFLINE": "true",
-            "LD_LIBRARY_PATH": nightly_sysroot() + "/lib:" + env.get("LD_LIBRARY_PATH", ""),
-            "RUSTFLAGS": "-Awarnings",
-            "RUSTC_WORKSPACE_WRAPPER": DRIVER_BIN,
-            "CARGO_TARGET_DIR": target,
-            "MIRFACTS_OUT": tmp,
-            "MIRFACTS_CRATES": ",".join(CRATES),
-        })
-        env.pop("RUSTC_WRAPPER", None)
-        cmd = ["cargo", "+nightly", "check", "--offline", "-q", "-p", "dropshot", "-p", "dropshot_endpoint"]
-        if features:
-            cmd += ["--features", ",".join("dropshot/" + f for f in features.split(","))]
-        r = subprocess.run(cmd, cwd=repo, env=env, stdout=subprocess.PIPE, stderr=subprocess.STDOUT, text=True)
-        if r.returncode != 0:
+        last_err = None
+        for attempt in range(2):
+            # cargo's freshness cache would silently skip the wrapper: forget the members
+            for d in glob.glob(os.path.join(target, "debug", ".fingerprint", "dropshot-*")) + \
+                    glob.glob(os.path.join(target, "debug", ".fingerprint", "dropshot_endpoint-*")):
+                shutil.rmtree(d, ignore_errors=True)
             shutil.rmtree(tmp, ignore_errors=True)
-            raise ExtractionError("cargo check failed on the current tree:\n" + r.stdout[-4000:])
-        for c in CRATES:
-            p = os.path.join(tmp, c + ".json")
-            if not os.path.exists(p) or os.path.getmtime(p) < t0 - 1:
+            os.makedirs(tmp)
+            env = dict(os.environ)
+            env.update({
+                "CARGO_NET_OFFLINE": "true",
+                "LD_LIBRARY_PATH": nightly_sysroot() + "/lib:" + env.get("LD_LIBRARY_PATH", ""),
+                "RUSTFLAGS": "-Awarnings",
+                "RUSTC_WORKSPACE_WRAPPER": DRIVER_BIN,
+                "CARGO_TARGET_DIR": target,
+                "MIRFACTS_OUT": tmp,
+                "MIRFACTS_CRATES": ",".join(CRATES),
+            })
+            env.pop("RUSTC_WRAPPER", None)
+            cmd = ["cargo", "+nightly", "check", "--offline", "-q", "-p", "dropshot", "-p", "dropshot_endpoint"]
+            if features:
+                cmd += ["--features", ",".join("dropshot/" + f for f in features.split(","))]
+            t1 = time.time()
+            r = subprocess.run(cmd, cwd=repo, env=env, stdout=subprocess.PIPE, stderr=subprocess.STDOUT, text=True)
+            if r.returncode != 0:
                 shutil.rmtree(tmp, ignore_errors=True)
-                raise ExtractionError("fact file for crate %s was not written by this run" % c)
+                raise ExtractionError("cargo check failed on the current tree:\n" + r.stdout[-4000:])
+            missing = [c for c in CRATES if not os.path.exists(os.path.join(tmp, c + ".json")) or os.path.getmtime(os.path.join(tmp, c + ".json")) < t1 - 1]
+            if not missing:
+                last_err = None
+                break
+            last_err = "fact file for crate %s was not written by this run" % missing[0]
+        if last_err:
+            shutil.rmtree(tmp, ignore_errors=True)
+            raise ExtractionError(last_err)
         shutil.rmtree(out, ignore_errors=True)
         os.rename(tmp, out)
         info["extracted"] = True
         info["extract_s"] = round(time.time() - t0, 2)
         # keep the cache bounded: drop all but the 12 most recent fact sets
         sets = sorted(glob.glob(os.path.join(CACHE, "facts", "*")), key=os.path.getmtime)
-        for old in sets[:-12]:
+        for old in sets[:-40]:
             shutil.rmtree(old, ignore_errors=True)
         return out, info
     finally:
